@@ -73,7 +73,10 @@ NoCycle == [ph |-> "none", called |-> {}, got |-> {}, ok |-> TRUE, anc |-> Nil, 
 
 MInit(mode) == [
   mode |-> mode,
-  infl |-> {},           \* commands called and not yet returned, as [id, kind]
+  infl |-> {},           \* commands called and not yet returned, as [id, kind, ep, busy]: ep = epoch when called,
+                         \* busy = a resume/restart was in flight when it was called
+  epoch |-> 0,           \* number of resume/restart calls so far
+  resetDirty |-> FALSE,  \* a scan returned while a reset was in flight
   pz |-> "no",           \* "yes": a pause returned ok (or the session was created paused) and no resume/restart began since
   quiet |-> FALSE,       \* the session must not perform endpoint operations
   term |-> FALSE,        \* a terminate returned ok
@@ -103,7 +106,8 @@ CycleComplete(c, mode) ==
 \* ---------------------------------------------------------------- events
 \* kinds: "create" "createp" "pause" "resume" "flushw" "flushn" "reset" "terminate" "restart"
 MCall(m, i, k) ==
-  LET m1 == [m EXCEPT !.infl = @ \cup {[id |-> i, kind |-> k]}]
+  LET m1 == [m EXCEPT !.infl = @ \cup {[id |-> i, kind |-> k, ep |-> m.epoch, busy |-> InflKinds(m, RestartKinds) # {}]},
+                      !.epoch = IF k \in RestartKinds THEN @ + 1 ELSE @]
       m2 == IF k \in HaltEndKinds
             THEN [m1 EXCEPT !.halted = FALSE, !.haltSettled = FALSE, !.hflush = {}, !.haltRoots = NoRoots]
             ELSE IF k = "pause" THEN [m1 EXCEPT !.haltTouched = TRUE]
@@ -111,7 +115,8 @@ MCall(m, i, k) ==
             ELSE m1
   IN CASE k = "resume" -> [m2 EXCEPT !.quiet = m.term, !.pz = "unk"]
        [] k = "restart" -> [m2 EXCEPT !.quiet = m.term \/ (@ /\ m.pz = "yes")]
-       [] k = "reset" -> [m2 EXCEPT !.resetRef = m.lastRoots, !.resetClean = FALSE]
+       [] k = "reset" -> [m2 EXCEPT !.resetRef = m.lastRoots, !.resetClean = FALSE,
+                                    !.resetDirty = IF InflKinds(m, {"reset"}) = {} THEN FALSE ELSE @]
        [] k \in {"flushw", "flushn"} ->
             [m2 EXCEPT !.fresh = @ \ {i}, !.fdone = @ \ {i},
                        !.hflush = IF m.halted /\ m.haltSettled THEN @ \cup {i} ELSE @]
@@ -120,14 +125,18 @@ MCall(m, i, k) ==
 \* r \in {"ok", "err", "timeout"}
 MRet(m, i, k, r) ==
   LET m1 == [m EXCEPT !.infl = {x \in @ : x.id # i}]
-      undisturbed == InflKinds(m1, RestartKinds) = {}
+      me == CHOOSE x \in m.infl : x.id = i
+      \* no resume/restart was in flight, or was called, at any time between this command's call and now.  (The
+      \* journal entry of a return may lag behind the return itself, so "none in flight now" is not enough.)
+      undisturbed == (\E x \in m.infl : x.id = i) /\ ~me.busy /\ me.ep = m.epoch
   IN CASE k = "pause" /\ r = "ok" ->
             IF undisturbed THEN [m1 EXCEPT !.quiet = TRUE, !.pz = "yes"] ELSE [m1 EXCEPT !.pz = "unk"]
        [] k = "createp" /\ r = "ok" -> [m1 EXCEPT !.quiet = TRUE, !.pz = "yes"]
        [] k = "terminate" /\ r = "ok" -> [m1 EXCEPT !.quiet = TRUE, !.term = TRUE, !.resetClean = FALSE]
        [] k = "resume" /\ r = "ok" ->
             IF undisturbed /\ InflKinds(m1, {"pause"}) = {} /\ m.pz = "unk" THEN [m1 EXCEPT !.pz = "no"] ELSE m1
-       [] k = "reset" /\ r = "ok" -> [m1 EXCEPT !.resetClean = ~m.term /\ InflKinds(m1, {"terminate", "reset"}) = {}]
+       [] k = "reset" /\ r = "ok" ->
+            [m1 EXCEPT !.resetClean = ~m.term /\ ~m.resetDirty /\ InflKinds(m1, {"terminate", "reset"}) = {}]
        [] k = "reset" /\ r # "ok" -> [m1 EXCEPT !.resetRef = NoRoots]
        [] k = "flushw" /\ r = "ok" ->
             [m1 EXCEPT !.badFlush = @ \/ ~(i \in m.fdone \/ (i \in m.fresh /\ CycleComplete(m.cy, m.mode))),
@@ -173,7 +182,8 @@ MOp(m, o) ==
                !.haltRoots = IF estab THEN m.lastRoots ELSE @,
                !.lastRoots = IF transRet THEN NoRoots ELSE @,
                !.resetRef = IF transRet /\ InflKinds(m, {"reset"}) # {} THEN NoRoots ELSE @,
-               !.resetClean = @ /\ ~(o.op = "Scan" /\ ~isCall)]
+               !.resetClean = @ /\ ~(o.op = "Scan" /\ ~isCall),
+               !.resetDirty = @ \/ (o.op = "Scan" /\ ~isCall /\ InflKinds(m, {"reset"}) # {})]
 
 RECURSIVE MOps(_, _)
 MOps(m, q) == IF q = <<>> THEN m ELSE MOps(MOp(m, Head(q)), Tail(q))
